@@ -335,6 +335,10 @@ const prelude = `(declare-datatypes ((Slice 0)) (((mk-slice (s-obj Int) (s-off I
 (declare-fun bxor (Int Int) Int)
 (declare-fun implements (Int Int) Bool)
 (declare-fun maplen (Int) Int)
+(declare-fun strcat (Int Int) Int)
+(assert (forall ((a Int) (b Int)) (! (= (slen (strcat a b)) (+ (slen a) (slen b))) :pattern ((strcat a b)))))
+(assert (forall ((a Int) (b Int) (k Int)) (! (=> (and (<= 0 k) (< k (slen a))) (= (sbyte (strcat a b) k) (sbyte a k))) :pattern ((sbyte (strcat a b) k)))))
+(assert (forall ((a Int) (b Int) (k Int)) (! (=> (and (<= (slen a) k) (< k (+ (slen a) (slen b)))) (= (sbyte (strcat a b) k) (sbyte b (- k (slen a))))) :pattern ((sbyte (strcat a b) k)))))
 (assert (forall ((s Int)) (! (and (>= (slen s) 0) (<= (slen s) 9223372036854775807)) :pattern ((slen s)))))
 (assert (forall ((s Int)) (! (=> (= (slen s) 0) (= s 0)) :pattern ((slen s)))))
 (assert (= (slen 0) 0))
